@@ -15,7 +15,9 @@
 //!                                advance_date not yet attempted) if it gets there
 //!       ["rel",th]               releases a parked thread and waits for its write to finish
 //!       ["race",[th..],secs,[hex..]]  shared only: the threads are released together by a barrier
-//! Every file creation is preceded by a sleep of gap_ms so that `created()` orders files as real time does.
+//! Every file creation is preceded by a sleep of gap_ms AND a barrier that reads the created() stamp of a probe file back until it is
+//! strictly newer than every entry of the case directory (a sleep alone is not enough under load); stamps are re-checked after every
+//! operation and a case with equal / non-increasing stamps is run again (never counted as agreement).
 //!
 //!   h_rolling sweep <workdir> <out-file>   volume mode, descriptors on stdin (same language and output format as
 //!                                          ocaml/c16/main.ml, the extracted model):
@@ -29,7 +31,7 @@ use std::cell::Cell;
 use std::io::{BufRead, Read, Write};
 use std::panic::{catch_unwind, AssertUnwindSafe};
 use std::path::{Path, PathBuf};
-use std::sync::atomic::{AtomicU64, Ordering};
+use std::sync::atomic::{AtomicBool, AtomicU64, Ordering};
 use std::sync::{mpsc, Arc, Barrier, Condvar, Mutex};
 use std::time::{Duration, UNIX_EPOCH};
 use tracing_appender::rolling::{RollingFileAppender, Rotation, __verif};
@@ -113,6 +115,69 @@ fn listing(dir: &Path) -> Value {
     Value::Array(v.into_iter().map(|(n, c, t)| json!([n, c, t.to_string()])).collect())
 }
 
+/// How often the barrier below had to wait, and whether a file appeared with a created() stamp that is not strictly
+/// greater than everything that was there before (then the case is run again: the model's creation order would not be
+/// the file system's).
+static BARRIER_WAITS: AtomicU64 = AtomicU64::new(0);
+static STAMP_ANOMALY: AtomicBool = AtomicBool::new(false);
+
+fn stamp_of(p: &Path) -> u128 {
+    std::fs::metadata(p).ok().and_then(|m| m.created().ok()).and_then(|c| c.duration_since(UNIX_EPOCH).ok()).map(|d| d.as_nanos()).unwrap_or(0)
+}
+
+fn max_stamp(dir: &Path) -> u128 {
+    let mut m = 0u128;
+    if let Ok(rd) = std::fs::read_dir(dir) {
+        for e in rd.flatten() {
+            m = m.max(stamp_of(&e.path()));
+        }
+    }
+    m
+}
+
+/// Returns once a file created NOW gets a created() stamp strictly greater than that of every entry of `dir`.
+/// A sleep is not enough: the stamp comes from the kernel's coarse clock, which under load (a descheduled vCPU) can stand
+/// still for longer than any fixed gap - so the stamp of a probe file (next to `dir`, never inside it) is read back.
+fn clock_barrier(dir: &Path, gap: Duration) {
+    std::thread::sleep(gap);
+    let m = max_stamp(dir);
+    let mut name = dir.file_name().unwrap().to_os_string();
+    name.push(".probe");
+    let probe = dir.with_file_name(name);
+    for _ in 0..20000 {
+        let _ = std::fs::remove_file(&probe);
+        std::fs::write(&probe, b"").unwrap();
+        let s = stamp_of(&probe);
+        let _ = std::fs::remove_file(&probe);
+        if s > m {
+            return;
+        }
+        BARRIER_WAITS.fetch_add(1, Ordering::SeqCst);
+        std::thread::sleep(Duration::from_millis(1));
+    }
+    STAMP_ANOMALY.store(true, Ordering::SeqCst);
+}
+
+/// every (name, stamp) of `after` that is not in `before` must be strictly newer than everything in `before`, and no two
+/// entries may share a stamp
+fn check_stamps(before: &Value, after: &Value) {
+    let get = |v: &Value| -> Vec<(String, String)> {
+        v.as_array().map(|a| a.iter().map(|e| (e[0].as_str().unwrap_or("").to_string(), e[2].as_str().unwrap_or("0").to_string())).collect()).unwrap_or_default()
+    };
+    let (b, a) = (get(before), get(after));
+    let mx = b.iter().map(|(_, s)| s.parse::<u128>().unwrap_or(0)).max().unwrap_or(0);
+    let mut seen = std::collections::HashSet::new();
+    for (n, s) in &a {
+        let v = s.parse::<u128>().unwrap_or(0);
+        if !seen.insert(v) {
+            STAMP_ANOMALY.store(true, Ordering::SeqCst);
+        }
+        if !b.iter().any(|(n0, s0)| n0 == n && s0 == s) && v <= mx {
+            STAMP_ANOMALY.store(true, Ordering::SeqCst);
+        }
+    }
+}
+
 fn rotation(s: &str) -> Rotation {
     match s {
         "m" => Rotation::MINUTELY,
@@ -138,11 +203,26 @@ fn panic_msg(e: Box<dyn std::any::Any + Send>) -> String {
 fn run_case(case: &Value, dir: &Path, gap: Duration) -> Value {
     std::fs::create_dir_all(dir).unwrap();
     for p in case["pre"].as_array().map(|a| a.as_slice()).unwrap_or(&[]) {
-        std::thread::sleep(gap);
         let name = p[0].as_str().unwrap();
-        match p[1].as_str() {
-            Some(h) => std::fs::write(dir.join(name), unhex(h)).unwrap(),
-            None => std::fs::create_dir_all(dir.join(name)).unwrap(),
+        // never assume the gap sufficed: the stamp is read back and must be strictly newer than every earlier entry
+        let mut ok = false;
+        for _ in 0..50 {
+            clock_barrier(dir, gap);
+            let before = max_stamp(dir);
+            match p[1].as_str() {
+                Some(h) => std::fs::write(dir.join(name), unhex(h)).unwrap(),
+                None => std::fs::create_dir_all(dir.join(name)).unwrap(),
+            }
+            if stamp_of(&dir.join(name)) > before {
+                ok = true;
+                break;
+            }
+            BARRIER_WAITS.fetch_add(1, Ordering::SeqCst);
+            let _ = std::fs::remove_file(dir.join(name));
+            let _ = std::fs::remove_dir_all(dir.join(name));
+        }
+        if !ok {
+            STAMP_ANOMALY.store(true, Ordering::SeqCst);
         }
     }
     let mut first = run_life(case, dir, gap);
@@ -161,7 +241,8 @@ fn run_case(case: &Value, dir: &Path, gap: Duration) -> Value {
 }
 
 fn run_life(case: &Value, dir: &Path, gap: Duration) -> Value {
-    std::thread::sleep(gap);
+    clock_barrier(dir, gap);
+    let before_build = listing(dir);
     let mut b = RollingFileAppender::builder().rotation(rotation(case["rot"].as_str().unwrap()));
     if let Some(p) = case["prefix"].as_str() {
         b = b.filename_prefix(p);
@@ -180,6 +261,8 @@ fn run_life(case: &Value, dir: &Path, gap: Duration) -> Value {
         Err(p) => return json!({"id": case["id"], "build_panic": panic_msg(p), "init": listing(dir), "steps": []}),
     };
     let init = listing(dir);
+    check_stamps(&before_build, &init);
+    let mut last = init.clone();
     let shared = case["iface"].as_str() == Some("s");
     let ops = case["ops"].as_array().unwrap();
     let mut steps = Vec::new();
@@ -188,7 +271,7 @@ fn run_life(case: &Value, dir: &Path, gap: Duration) -> Value {
     if !shared {
         let mut app = app;
         for op in ops {
-            std::thread::sleep(gap);
+            clock_barrier(dir, gap);
             let t = op[2].as_i64().unwrap();
             let buf = unhex(op[3].as_str().unwrap());
             __verif::set_thread_clock(Some((t, 0)));
@@ -198,7 +281,10 @@ fn run_life(case: &Value, dir: &Path, gap: Duration) -> Value {
                 Ok(Err(e)) => json!(e),
                 Err(p) => json!(format!("panic: {}", panic_msg(p))),
             };
-            steps.push(json!({"res": res, "dir": listing(dir)}));
+            let now = listing(dir);
+            check_stamps(&last, &now);
+            steps.push(json!({"res": res, "dir": now.clone()}));
+            last = now;
         }
         let _ = app.flush();
         drop(app);
@@ -251,7 +337,7 @@ fn run_life(case: &Value, dir: &Path, gap: Duration) -> Value {
     let mut fatal: Option<String> = None;
     let mut parked_now = [false; MAXT];
     for op in ops {
-        std::thread::sleep(gap);
+        clock_barrier(dir, gap);
         let kind = op[0].as_str().unwrap();
         let y0 = YIELDS.load(Ordering::SeqCst);
         let mut res = Vec::new();
@@ -305,7 +391,10 @@ fn run_life(case: &Value, dir: &Path, gap: Duration) -> Value {
             _ => fatal = Some(format!("unknown op {}", op)),
         }
         let y1 = YIELDS.load(Ordering::SeqCst);
-        steps.push(json!({"res": res, "parked": parked, "rot": y1 - y0, "dir": listing(dir)}));
+        let now = listing(dir);
+        check_stamps(&last, &now);
+        steps.push(json!({"res": res, "parked": parked, "rot": y1 - y0, "dir": now.clone()}));
+        last = now;
         if fatal.is_some() {
             break;
         }
@@ -489,14 +578,31 @@ fn main() {
             }
         };
         n += 1;
-        let dir = work.join(format!("c{}_{}", std::process::id(), n));
-        let _ = std::fs::remove_dir_all(&dir);
-        let r = catch_unwind(AssertUnwindSafe(|| run_case(&case, &dir, gap)));
-        let v = match r {
-            Ok(v) => v,
-            Err(p) => json!({"id": case["id"], "error": format!("harness panic: {}", panic_msg(p))}),
-        };
-        let _ = std::fs::remove_dir_all(&dir);
+        // a case during which the file system handed out equal or non-increasing created() stamps says nothing about
+        // the appender (its pruning order is then the directory's hash order): it is run again in a fresh directory,
+        // and reported as a harness failure - never as agreement - if that keeps happening
+        let mut v = Value::Null;
+        let mut reruns = 0u64;
+        for attempt in 0..6 {
+            let dir = work.join(format!("c{}_{}_{}", std::process::id(), n, attempt));
+            let _ = std::fs::remove_dir_all(&dir);
+            STAMP_ANOMALY.store(false, Ordering::SeqCst);
+            let r = catch_unwind(AssertUnwindSafe(|| run_case(&case, &dir, gap)));
+            v = match r {
+                Ok(v) => v,
+                Err(p) => json!({"id": case["id"], "error": format!("harness panic: {}", panic_msg(p))}),
+            };
+            let _ = std::fs::remove_dir_all(&dir);
+            if !STAMP_ANOMALY.load(Ordering::SeqCst) {
+                break;
+            }
+            reruns += 1;
+            if attempt == 5 {
+                v = json!({"id": case["id"], "error": "created() stamps equal or not increasing in 6 attempts: the file system's creation order is unusable"});
+            }
+        }
+        v["stamp_reruns"] = json!(reruns);
+        v["barrier_waits"] = json!(BARRIER_WAITS.swap(0, Ordering::SeqCst));
         let mut o = out.lock();
         writeln!(o, "{}", v).unwrap();
         o.flush().unwrap();
